@@ -55,6 +55,33 @@ def gen_case(rng, malformed=False):
     return {'size': size, 'pos': pos, 'off': off, 'ops': ops}
 
 
+def gen_fill_case(rng):
+    """boundary-biased: fill the partition exactly, free first / last / neighbours (merge with previous, next, both), ask for everything"""
+    size = rng.choice([4, 5, 6, 8, 10, 12, 16, 24])
+    pos = rng.choice([0, 0, 1, 2, 3])
+    if pos >= size - 1:
+        pos = 0
+    off = rng.choice([0, 1, 2, 3]) * size + rng.choice([0, 0, 2, 4, 7])
+    avail = size - pos
+    ops, k = [], 0
+    while k < avail:
+        n = min(avail - k, rng.choice([1, 1, 1, 2, 2, 3]))
+        ops.append(['a', n, rng.randrange(1000)])
+        k += n
+    ops.append(['a', 1, 0])
+    nblocks = len(ops) - 1
+    order = list(range(nblocks))
+    rng.shuffle(order)
+    if rng.random() < 0.5:                     # make sure first and last block are among the freed ones
+        order = [0, nblocks - 1] + [j for j in order if j not in (0, nblocks - 1)]
+    for j in order[:rng.randint(min(2, nblocks), nblocks)]:
+        ops.append(['fi', j])
+        if rng.random() < 0.3:
+            ops.append(['a', rng.choice([1, 2, avail]), rng.randrange(1000)])
+    ops += [['a', avail, 0], ['a', 1, 0]]
+    return {'size': size, 'pos': pos, 'off': off, 'ops': ops}
+
+
 def coq_ops(ops):
     return '(%s : list op)' % clist(['OAlloc %s %s' % (cz(o[1]), cz(o[2] if o[2] is not None else 0)) if o[0] == 'a' else 'OFree %s' % cz(o[1]) for o in ops])
 
@@ -95,17 +122,38 @@ def correspond(ctx):
     if os.path.exists(corpus):
         cases += json.load(open(corpus))
     ncorpus = len(cases)
-    cases += [gen_case(rng) for _ in range(ctx.n(500, 6000))]
+    cases += [gen_case(rng) for _ in range(ctx.n(380, 6000))]
+    cases += [gen_fill_case(rng) for _ in range(ctx.n(150, 2500))]
     cases += [gen_case(rng, True) for _ in range(ctx.n(120, 1200))]
+    # several allocators alive at once (the partitions of one index space), interleaved
+    mcases = []
+    for _ in range(ctx.n(30, 400)):
+        logins = rng.choice([2, 3, 4])
+        io = rng.choice([0, 0, 2, 4])
+        per = rng.choice([4, 6, 8, 12])
+        resv = rng.choice([0, 0, 1])
+        total = io + logins * per + rng.randrange(logins)
+        params = [[per, resv, per * k + io] for k in range(logins)]
+        mops = []
+        for _ in range(rng.randint(6, 50)):
+            k = rng.randrange(logins)
+            r = rng.random()
+            if r < 0.5:
+                mops.append(['a', k, rng.choice([1, 1, 2, 3, per - resv]), rng.randrange(1000)])
+            elif r < 0.9:
+                mops.append(['fl', k, rng.randrange(1000)])
+            else:                                   # an address of ANOTHER client's partition (or of this one)
+                mops.append(['f', k, io + rng.randrange(logins * per)])
+        mcases.append({'total': total, 'io': io, 'logins': logins, 'reserved': resv, 'params': params, 'ops': mops})
     node_cases = []
     for u in [0, 1, 2, 5, 31]:
-        for it in [1000, 1, 2, 67108863]:
+        for it in [1000, 0, 1, 2, 67108863, 67108862, 67108860]:
             node_cases.append({'user': u, 'init': it, 'start': None, 'count': rng.randint(1, 12)})
             node_cases.append({'user': u, 'init': it, 'start': 67108863 - rng.randint(0, 6), 'count': rng.randint(2, 14)})
     node_cases.append({'user': 32, 'init': 1000, 'start': None, 'count': 1})
     # public reserve(): not in the property's alphabet (no caller in sc3); compared with model/AllocReserve.v informally
     rcases = []
-    for _ in range(ctx.n(150, 1500)):
+    for _ in range(ctx.n(80, 1500)):
         size = rng.choice([4, 6, 8, 12, 16])
         pos = rng.choice([0, 0, 1])
         off = rng.choice([0, 0, 0, size, 5])
@@ -120,7 +168,7 @@ def correspond(ctx):
                 rops.append(['r', off + rng.randrange(size), rng.choice([1, 1, 2, 3])])
         rcases.append({'size': size, 'pos': pos, 'off': off, 'ops': rops})
     res = ctx.impl('c16_alloc', {'cases': cases, 'node': node_cases, 'probe_foreign': True,
-                                 'reserve_cases': rcases, 'probe_reserve': True})
+                                 'reserve_cases': rcases, 'probe_reserve': True, 'multi_cases': mcases})
     items, conc, informal = [], [], []
     for k, (case, ops, entries) in enumerate(zip(cases, res['ops'], res['cases'])):
         cops_all = concrete(ops, entries)
@@ -204,6 +252,32 @@ def correspond(ctx):
             theorem='alloc_disjoint_from_live (its hypothesis "free only inside the partition" is not enforced by free())'))
     c.count('probe:foreign-free', 1)
 
+    # interleaved allocators: every client's history against the model, constructor arguments against Alloc.partition
+    mitems, minfo = [], []
+    for mc, logs in zip(mcases, res.get('multi', [])):
+        for k, (ops_k, ents_k) in enumerate(logs):
+            cops_k = concrete(ops_k, ents_k)
+            if any(e[0] >= 2 or not e[6] for e in ents_k):
+                c.failures.append(Failure('correspondence', 'interleaved allocators: exception or shared state between allocator instances, client %d of %s' % (k, mc),
+                                          replay={'multi_case': mc}))
+            sz, p_, off_ = mc['params'][k]
+            mitems.append('((%s, %s, %s, %s, %s), (%s, %s, %s), %s, %s)' % (
+                cz(mc['total']), cz(mc['io']), cz(mc['logins']), cz(mc['reserved']), cz(k), cz(sz), cz(p_), cz(off_),
+                coq_ops(cops_k), coq_entries(ents_k)))
+            minfo.append((mc, k, cops_k))
+            c.evaluations += len(cops_k)
+            c.count('interleaved:ops', len(cops_k))
+            if any(o[0] == 'f' for o in cops_k) and k > 0:
+                c.nontriv(json.dumps([mc['params'], k, cops_k]))
+    if mitems:
+        mbad, merrs = fw.check_shards(ctx, 'multi', HEADER, mitems, 'Eval vm_compute in bad_idx (check_part true) cases.', shard=60)
+        for e in merrs:
+            c.failures.append(Failure('correspondence', 'coq evaluation of interleaved cases failed: ' + e))
+        for i in mbad[:3]:
+            mc, k, cops_k = minfo[i]
+            c.failures.append(Failure('correspondence', 'interleaved allocators: client %d of %s disagrees with the model on %s' % (k, mc['params'], cops_k),
+                                      replay={'multi_case': mc, 'client': k, 'case': {'size': mc['params'][k][0], 'pos': mc['params'][k][1], 'off': mc['params'][k][2], 'ops': cops_k}}))
+
     # reserve(): informational
     ritems = []
     for case, ops, entries in zip(rcases, res.get('reserve_ops', []), res.get('reserve_cases', [])):
@@ -254,61 +328,130 @@ def correspond(ctx):
         c.failures.append(Failure('correspondence', 'NodeId model and implementation disagree on %s: impl %s' % (node_cases[nidx[i]], res['node'][nidx[i]]),
                                   replay={'node': node_cases[nidx[i]], 'impl': res['node'][nidx[i]]}))
 
-    # through Server options / Bus / Buffer (NRT, no server process)
-    scases = []
-    for _ in range(ctx.n(14, 80)):
+    # through Server options / Bus / Buffer / Node (NRT, no server process); object-level expectations are checked by the driver
+    def rand_opts():
         logins = rng.choice([1, 2, 3, 4, 8])
-        io_in, io_out = rng.choice([(2, 2), (0, 2), (8, 8), (1, 0)])
-        opts = {'max_logins': logins, 'input_channels': io_in, 'output_channels': io_out,
+        io_in, io_out = rng.choice([(2, 2), (0, 2), (8, 8), (1, 0), (0, 0)])
+        return {'max_logins': logins, 'input_channels': io_in, 'output_channels': io_out,
                 'audio_buses': io_in + io_out + logins * rng.choice([6, 9, 16, 31]) + rng.choice([0, 1, 3]),
                 'control_buses': logins * rng.choice([5, 8, 20]) + rng.choice([0, 2]),
                 'buffers': logins * rng.choice([4, 8, 13]) + rng.choice([0, 1]),
                 'reserved_audio_buses': rng.choice([0, 0, 1, 2]), 'reserved_control_buses': rng.choice([0, 1, 3]),
-                'reserved_buffers': rng.choice([0, 0, 2])}
+                'reserved_buffers': rng.choice([0, 0, 2]),
+                'initial_node_id': rng.choice([1000, 1000, 0, 1, 67108863, 67108861, 67108858])}
+
+    def per_client(o):
+        io = o['input_channels'] + o['output_channels']
+        return {'A': (o['audio_buses'] - io) // o['max_logins'] - o['reserved_audio_buses'],
+                'C': o['control_buses'] // o['max_logins'] - o['reserved_control_buses'],
+                'B': o['buffers'] // o['max_logins'] - o['reserved_buffers']}
+
+    scases = []
+    # (a) deterministic boundary / falsy-zero scenarios: every client id of a server, explicit 0 ids, whole partition, last index
+    zero = {'max_logins': 1, 'input_channels': 0, 'output_channels': 0, 'audio_buses': 6, 'control_buses': 5, 'buffers': 4,
+            'reserved_audio_buses': 0, 'reserved_control_buses': 0, 'reserved_buffers': 0, 'initial_node_id': 0}
+    scases.append({'opts': zero, 'client': 0, 'ops': [
+        ['A', 1, 0], ['C', 1, 0], ['B', 1, 0], ['F', 0], ['F', 1], ['F', 2], ['F', 0], ['A', 6, 0], ['C', 5, 0], ['B', 4, 0],
+        ['F', 3], ['F', 4], ['F', 5], ['A', 0, 0], ['C', 0, 0], ['Ai', 2, 0], ['Ci', 1, 0], ['Bi', 1, 0], ['Bi', 3, 0], ['A', 2, 0],
+        ['F', 8], ['F', 9], ['F', 10], ['F', 11], ['N', 3], ['Bx'], ['B', 2, 0], ['FA'], ['D', 1, 0], ['B', 4, 0], ['F', 17]]})
+    for o in (rand_opts(), rand_opts()) if ctx.quick else [rand_opts() for _ in range(8)]:
+        pc = per_client(o)
+        for k in range(o['max_logins']):
+            ops = []
+            for kind in 'ACB':
+                n = pc[kind]
+                if n < 1:
+                    continue
+                base = len([x for x in ops if x[0] in 'ACB'])
+                ops += [[kind, n, 0], ['F', base], [kind, n + 1, 0]] + [[kind, 1, 0] for _ in range(n + 1)]
+                ops += [['F', base + 2 + n], ['F', base + 3], ['F', base + 4], [kind, 2, 0], [kind, 1, 1], [kind, 1, 0]]
+            ops += [['N', 7]]
+            scases.append({'opts': o, 'client': k, 'ops': ops})
+    # (b) random object-level histories
+    for _ in range(ctx.n(14, 80)):
+        opts = rand_opts()
         ops = []
         for _ in range(rng.randint(5, 45)):
             r = rng.random()
-            if r < 0.55:
-                ops.append([rng.choice('AACCB'), rng.choice([1, 1, 2, 2, 3, 4, 6]), rng.randrange(1000)])
-            else:
+            if r < 0.45:
+                ops.append([rng.choice('AACCB'), rng.choice([1, 1, 2, 2, 3, 4, 6, 0]), rng.randrange(1000)])
+            elif r < 0.55:
+                kind = rng.choice(['Ai', 'Ci', 'Bi'])
+                ops.append([kind, rng.choice([1, 2, 3]), rng.choice([0, 0, 1, 2, 5, 9, 17, 40])])
+            elif r < 0.90:
                 ops.append(['F', rng.randrange(1000)])
-        scases.append({'opts': opts, 'client': rng.randrange(logins), 'ops': ops})
+            elif r < 0.92:
+                ops.append(['FA'])
+            elif r < 0.94:
+                ops.append(['Bx'])
+            elif r < 0.96:
+                ops.append(['R', rng.randrange(opts['max_logins'])])
+            elif r < 0.98:
+                ops.append(['D', rng.choice([1, 2]), rng.randrange(1000)])
+            else:
+                ops.append(['N', rng.randint(1, 6)])
+        scases.append({'opts': opts, 'client': rng.randrange(opts['max_logins']), 'ops': ops})
     sres = ctx.impl('c16_server', {'cases': scases})['cases']
-    sitems, sinfo = [], []
+    sitems, sinfo, snode = [], [], []
+    leak_seen = False
     for sc, sr in zip(scases, sres):
         if 'fatal' in sr or sr.get('errors'):
-            c.failures.append(Failure('correspondence', 'driving Bus/Buffer through Server failed: %s' % (sr.get('fatal') or sr['errors']), replay={'server_case': sc}))
-            continue
+            c.failures.append(Failure('correspondence', 'driving Bus/Buffer/Node through Server failed: %s' % (sr.get('fatal') or sr['errors']), replay={'server_case': sc}))
+            if 'fatal' in sr:
+                continue
         o = sc['opts']
         io = o['input_channels'] + o['output_channels']
-        if sr['client_id'] != sc['client'] or sr['node'][0] != sc['client'] or not all((sc['client'] << 26) <= x < ((sc['client'] + 1) << 26) for x in sr['node'][1:]):
-            c.failures.append(Failure('correspondence', 'server node allocator not bound to the client id: %s' % sr['node'], replay={'server_case': sc}))
-        for which, total, ioff, resv in (('audio', o['audio_buses'], io, o['reserved_audio_buses']),
-                                         ('control', o['control_buses'], 0, o['reserved_control_buses']),
-                                         ('buffer', o['buffers'], 0, o['reserved_buffers'])):
-            log = sr['logs'][which]
-            cops = [x[0] for x in log]
-            ents = [x[1] for x in log]
-            for e in ents:
-                if not e[6]:
-                    c.failures.append(Failure('correspondence', 'identity model broken (server %s allocator)' % which, replay={'server_case': sc}))
-            sz, p, off = sr['params'][which]
+        for msg in sr.get('ledger', [])[:3]:
+            c.failures.append(Failure('search', 'Server options %s, client %d, object-level history %s -- %s' % (o, sc['client'], sc['ops'], msg),
+                                      signature='C16:object-vs-allocator', replay={'server_case': sc, 'why': msg,
+                                      'replay_cmd': 'harness/impl/c16_server.py with this case (see its docstring for the op codes)'},
+                                      found_input=True, theorem='AInv_reachable (used blocks = allocations handed out and not freed) / server_live_ranges_disjoint'))
+        for ob in sr.get('observations', []):
+            if not leak_seen:
+                c.notes.append('observation: ' + ob)
+                leak_seen = True
+            c.known_demonstrated.append(('C16:buffer-number-leak-on-constructor-error', ob))
+        for nd in sr.get('node', []):
+            snode.append('((%s, %s, (Some %s), %d%%nat), (%s, %s, %s, %s))' % (cz(nd['user']), cz(nd['init']), cz(nd['temp0']), len(nd['ids']),
+                         clist([cz(x) for x in nd['ids']]), cz(nd['temp']), cz(nd['mask']), cz(nd['id_offset'])))
+            c.count('server:node-ids', len(nd['ids']))
+            if nd['user'] != nd['client'] or nd['init'] != o['initial_node_id']:
+                c.failures.append(Failure('correspondence', 'server node allocator not built from client id / initial_node_id: %s' % nd, replay={'server_case': sc}))
+        totals = {'audio': (o['audio_buses'], io, o['reserved_audio_buses']), 'control': (o['control_buses'], 0, o['reserved_control_buses']),
+                  'buffer': (o['buffers'], 0, o['reserved_buffers'])}
+        for seg in sr.get('segments', []):
+            which = seg['which']
+            total, ioff, resv = totals[which]
+            cops = [x[0] for x in seg['log']]
+            ents = [x[1] for x in seg['log']]
+            if any(not e[6] for e in ents):
+                c.failures.append(Failure('correspondence', 'identity model broken (server %s allocator)' % which, replay={'server_case': sc}))
+            sz, p, off = seg['params']
             sitems.append('((%s, %s, %s, %s, %s), (%s, %s, %s), %s, %s)' % (
-                cz(total), cz(ioff), cz(o['max_logins']), cz(resv), cz(sc['client']), cz(sz), cz(p), cz(off),
+                cz(total), cz(ioff), cz(o['max_logins']), cz(resv), cz(seg['client']), cz(sz), cz(p), cz(off),
                 coq_ops(cops), coq_entries(ents)))
             sinfo.append((sc, which, {'size': sz, 'pos': p, 'off': off, 'ops': cops}))
             c.evaluations += len(cops)
             c.count('server:%s-ops' % which, len(cops))
-            c.count('server:client>0' if sc['client'] else 'server:client=0')
-            if any(x[0] == 'f' for x in cops) and sc['client'] > 0:
-                c.nontriv(json.dumps([sc, which]))
-    sbad, serrs = fw.check_shards(ctx, 'srv', HEADER, sitems, 'Eval vm_compute in bad_idx (check_part true) cases.', shard=12)
+            if cops:
+                c.count('server:client>0' if seg['client'] else 'server:client=0')
+            if any(x[0] == 'f' for x in cops) and seg['client'] > 0:
+                c.nontriv(json.dumps([sc['opts'], seg['client'], which, cops]))
+        for op in sc['ops']:
+            c.count('server-op:' + op[0])
+    sbad, serrs = fw.check_shards(ctx, 'srv', HEADER, sitems, 'Eval vm_compute in bad_idx (check_part true) cases.', shard=40)
     for e in serrs:
         c.failures.append(Failure('correspondence', 'coq evaluation of server cases failed: ' + e))
     for i in sbad[:3]:
         sc, which, case = sinfo[i]
         c.failures.append(Failure('correspondence', 'model and implementation disagree on the %s allocator built by Server for client %d (options %s): allocator-level history %s' % (
             which, sc['client'], sc['opts'], case), replay={'server_case': sc, 'allocator': which, 'case': case}))
+    if snode:
+        nb, ne = fw.check_shards(ctx, 'srvnode', HEADER, snode, 'Eval vm_compute in bad_idx check_node cases.', shard=100)
+        for e in ne:
+            c.failures.append(Failure('correspondence', 'coq evaluation of server node-id cases failed: ' + e))
+        for i in nb[:3]:
+            c.failures.append(Failure('correspondence', 'node ids handed out by Server._next_node_id / basic_new differ from the NodeId model: %s' % snode[i], replay={'node_item': snode[i]}))
     c.rule = ('histories of alloc(n>=0)/free(addr)/double free/free of never-allocated and out-of-partition addresses on the real '
               'ContiguousBlockAllocator (sizes 4..64, reserved 0..3, client offsets 0..3*size plus an io offset 0..7; bi.choice replaced by a '
               'recorded deterministic choice fed to the model as its oracle); after EVERY operation the return value, top, every non-None '
